@@ -105,6 +105,24 @@ def run(repo: Repo, rep: Report) -> None:
             ok = dels.get(attr) == order
             rep.ob("C01.a-index-orders", mem, cls + ".remove", "del %s[%s]" % (attr, "][".join(order)), ok,
                    "deletes the declared path" if ok else "remove() deletes %s with keys %s but add() writes %s: the index keeps a stale entry that the pattern shapes reading it still see" % (attr, dels.get(attr), order), node=rmf)
+        # --- bulk clears: an index is never emptied alone
+        clears: dict[int, set] = {}
+        cnode: dict[int, ast.AST] = {}
+        for n in ast.walk(rmf):
+            if isinstance(n, ast.Call) and isinstance(n.func, ast.Attribute) and n.func.attr == "clear" and roles.self_attr(n.func.value) in orders:
+                blk = id(mem.parent.get(id(mem.parent.get(id(n)))))
+                clears.setdefault(blk, set()).add(roles.self_attr(n.func.value))
+                cnode.setdefault(blk, n)
+            if isinstance(n, ast.Assign) and any(roles.self_attr(t) in orders for t in n.targets):
+                blk = id(mem.parent.get(id(n)))
+                for t in n.targets:
+                    if roles.self_attr(t) in orders:
+                        clears.setdefault(blk, set()).add(roles.self_attr(t))
+                        cnode.setdefault(blk, n)
+        for blk, got in clears.items():
+            okc = got == set(orders)
+            rep.ob("C01.a-index-orders", mem, cls + ".remove", cnode[blk], okc,
+                   "all three indexes emptied together" if okc else "only %s are emptied, %s keeps its entries: the pattern shapes reading it still return the removed triples" % (sorted(got), sorted(set(orders) - got)), node=cnode[blk])
         # --- all deletes of the three indexes sit in one block
         blocks = set()
         for n in ast.walk(rmf):
@@ -405,6 +423,13 @@ def run(repo: Repo, rep: Report) -> None:
     ok = any(isinstance(l, ast.For) and norm(l.iter) == "other" and any(isinstance(c, ast.Call) and norm(c.func) == "self.remove" and norm(c.args[0]) == norm(l.target) for c in ast.walk(l)) for l in ast.walk(f))
     rep.ob("C01.f-set-operators", gm, "Graph.__isub__", "for t in other: self.remove(t)", ok, "" if ok else "__isub__ no longer removes every triple of other", node=f)
     f = gm.func("Graph.set")
+    from vlib.cfg import CFG as _CFG2
+    gset = _CFG2(f)
+    for what in ("self.remove", "self.add"):
+        nodes = {gset.node_of(c, gm) for c in ast.walk(f) if isinstance(c, ast.Call) and norm(c.func) == what}
+        okp = bool(nodes) and gset.exit not in gset.reach(gset.entry, avoid=nodes)
+        rep.ob("C01.f-set-operators", gm, "Graph.set", "%s(...) on every normal path" % what, okp,
+               "" if okp else "a path through set() returns without %s: the other values of (s, p, *) survive / the new value is not added" % what, node=f)
     calls = [c for c in ast.walk(f) if isinstance(c, ast.Call) and norm(c.func) in ("self.remove", "self.add")]
     calls.sort(key=lambda c: c.lineno)
     ok = [norm(c.func) for c in calls] == ["self.remove", "self.add"] and isinstance(calls[0].args[0], ast.Tuple) and isinstance(calls[0].args[0].elts[2], ast.Constant) \
